@@ -35,7 +35,7 @@ type formatCase struct{ Case, HasFn, Cmd string }
 type mapRange struct{ File, Func, Operand, Fingerprint string }
 type uncheckedOp struct{ File, Func, Kind, Expr string }
 
-type facts struct {
+type srcFacts struct {
 	CellAccesses []cellAccess
 	LockUsers    []string
 	FormatCases  []formatCase
@@ -91,7 +91,7 @@ func lockedByDefer(fset *token.FileSet, fd *ast.FuncDecl) bool {
 		strings.TrimSuffix(a, ".lock.Lock()") == strings.TrimSuffix(b, ".lock.Unlock()")
 }
 
-func extractFormatters(repo string, f *facts) error {
+func extractFormatters(repo string, f *srcFacts) error {
 	dir := filepath.Join(repo, "generator")
 	fset := token.NewFileSet()
 	ents, err := os.ReadDir(dir)
@@ -182,7 +182,7 @@ func lastSel(expr string) string {
 	return expr
 }
 
-func markCell(fset *token.FileSet, lhs ast.Expr, fn, kind string, path []string, locked bool, f *facts) {
+func markCell(fset *token.FileSet, lhs ast.Expr, fn, kind string, path []string, locked bool, f *srcFacts) {
 	e := lhs
 	if st, ok := e.(*ast.StarExpr); ok {
 		e = st.X
@@ -193,7 +193,7 @@ func markCell(fset *token.FileSet, lhs ast.Expr, fn, kind string, path []string,
 	}
 }
 
-func extractFormatFile(fset *token.FileSet, fd *ast.FuncDecl, f *facts) {
+func extractFormatFile(fset *token.FileSet, fd *ast.FuncDecl, f *srcFacts) {
 	ast.Inspect(fd.Body, func(n ast.Node) bool {
 		cc, ok := n.(*ast.CaseClause)
 		if !ok {
@@ -228,7 +228,7 @@ func parseFile(fset *token.FileSet, path string) (*ast.File, error) {
 	return parserParse(fset, path)
 }
 
-func extractTyped(repo string, f *facts) error {
+func extractTyped(repo string, f *srcFacts) error {
 	cfg := &packages.Config{Dir: repo, Mode: packages.NeedName | packages.NeedFiles | packages.NeedSyntax | packages.NeedTypes | packages.NeedTypesInfo | packages.NeedImports | packages.NeedDeps,
 		BuildFlags: []string{}}
 	pkgs, err := packages.Load(cfg, "./analysis/...", "./generator/...", "./cmd/...")
@@ -328,7 +328,7 @@ func runExtract(args []string) error {
 	lean := fs.String("lean", "", "Generated.lean to write")
 	out := fs.String("out", "", "facts.json to write")
 	fs.Parse(args)
-	var f facts
+	var f srcFacts
 	if err := extractFormatters(*repo, &f); err != nil {
 		return err
 	}
